@@ -119,7 +119,41 @@ def fam_crash(ctx, torn=False):
     ctx.cov.setdefault("deviation_switches", {}).update(dict(ctx.par(one, sws, workers=4)))
 
 
-FAMILIES = {"txn": fam_txn, "crash": fam_crash, "crash_torn": lambda ctx: fam_crash(ctx, torn=True)}
+WM_SWITCHES = ["BugKeepNegative", "BugWakeOnlyPopped", "BugWakeBeforeStore", "BugSkipBelowMark"]
+
+
+def wm_cfg(procs, idx, buf, maxcalls, on=(), live=False):
+    kw = dict(SPEC="FairSpec" if live else "Spec", PROCS=", ".join(map(str, range(1, procs + 1))),
+              IDX=", ".join(map(str, range(0, idx + 1))), BUF=buf, MAXCALLS=maxcalls,
+              LIVE="CatchesUpLive" if live else "")
+    for s in WM_SWITCHES:
+        kw[s] = T if s in on else F
+    return tlc.fill("MC_Watermark.cfg.tmpl", **kw)
+
+
+def fam_wm(ctx):
+    """Watermark.tla: channel, pending map, heap, consumer steps; Monotone, NeverPasses, CatchesUp,
+    WaitSound, WaitLive in every reachable state of bounded instances; liveness under fairness."""
+    bounds = [(2, 2, 1, 4), (1, 2, 2, 5)] if ctx.quick else [(2, 2, 2, 5), (3, 2, 1, 5), (1, 3, 2, 6)]
+    for b in bounds:
+        r = ctx.model_check("Watermark", wm_cfg(*b), timeout=3000)
+        expect_ok(ctx, r, "Watermark %s" % (b,))
+    r = ctx.model_check("Watermark", wm_cfg(2, 1, 1, 4, live=True) if ctx.quick else wm_cfg(2, 2, 2, 4, live=True),
+                        timeout=3000)
+    expect_ok(ctx, r, "Watermark liveness")
+    ctx.cov.setdefault("model_bounds", {})["Watermark(procs,max index,buffer,calls)"] = bounds
+
+    def one(s):
+        b = (1, 2, 2, 5) if s in ("BugKeepNegative", "BugSkipBelowMark") else (2, 2, 2, 5)
+        rr = ctx.model_check("Watermark", wm_cfg(*b, on=(s,)), timeout=900, expect_violation=True, workers=4)
+        expect_violation(ctx, rr, s)
+        m = re.findall(r"Invariant (\w+) is violated|property (\w+) is violated|Action property (\w+)", rr["out"])
+        return s, ("".join(m[0]) if m else "violated")
+
+    ctx.cov.setdefault("deviation_switches", {}).update(dict(ctx.par(one, WM_SWITCHES, workers=4)))
+
+
+FAMILIES = {"wm": fam_wm, "txn": fam_txn, "crash": fam_crash, "crash_torn": lambda ctx: fam_crash(ctx, torn=True)}
 
 
 def run_family(ctx, name):
